@@ -27,7 +27,7 @@ TaprootCommitmentEnv::TaprootCommitmentEnv(const std::vector<unsigned char>& con
     btc_taproot_logf("- p        = %s\n", m_p.ToString().c_str());
     btc_taproot_logf("- q        = %s\n", m_q.ToString().c_str());
     m_k = (HashWriter(HASHER_TAPLEAF) << uint8_t(control[0] & TAPROOT_LEAF_MASK) << script).GetSHA256();
-    btc_taproot_logf("- k        = %s          (tap leaf hash)\n", m_k.ToString().c_str());
+    btc_taproot_logf("- k        = %s          (tap leaf hash)\n", HexStr(m_k).c_str()); // (as BIP341 writes it, not byte-reversed like a txid)
     m_k_desc = strprintf("TapLeaf(0x%02x || %s)", uint8_t(control[0] & TAPROOT_LEAF_MASK), HexStr(script).c_str());
     btc_taproot_logf("  (%s)\n", m_k_desc.c_str());
     if (m_tapleaf_hash) *m_tapleaf_hash = m_k;
@@ -49,7 +49,7 @@ TaprootCommitmentEnv::State TaprootCommitmentEnv::Iterate() {
         }
         btc_taproot_logf("  (%s)\n", m_k_desc.c_str());
         m_k = ss_branch.GetSHA256();
-        btc_taproot_logf("  - %d: k -> %s\n", m_i, m_k.ToString().c_str());
+        btc_taproot_logf("  - %d: k -> %s\n", m_i, HexStr(m_k).c_str());
         ++m_i;
         return State::Processing;
     }
